@@ -20,7 +20,8 @@ pub fn seg_alphabet(f: Family, level: u8) -> Vec<Vec<u8>> {
 	if f == Family::Iri {
 		v.push("é");
 		if level >= 1 {
-			v.push("%C3%A9");
+			// "¯" / "®": last UTF-8 byte is the high-bit twin of '/' / '.'
+			v.extend(["%C3%A9", "¯", "®"]);
 		}
 		if level >= 2 {
 			v.extend(["\u{20AC}", "\u{1F600}"]);
